@@ -215,8 +215,13 @@ def field_value(draw, cd: ClassDesc, f: FieldDesc, profile: Profile, depth: int)
     if f.kind == "struct":
         if f.nullable and draw(st.integers(0, 2)) == 0:
             return None
-        if draw(st.integers(0, 7)) == 0:
+        pick = draw(st.integers(0, 7))
+        if pick == 0:
             return defaults_tree(f.struct)  # a present struct whose every field has its default / zero value
+        if pick == 1:
+            from .refcodec import zero_tree
+
+            return zero_tree(f.struct)  # all zeros / empty - NOT the default when the struct declares defaults such as -1
         return draw(tree_strategy(f.struct, profile, depth + 1))
     nullable = f.nullable or legacy_string
     if nullable and f.kind != "uuid" and draw(st.integers(0, 2)) == 0:
